@@ -21,7 +21,8 @@ REDIRECTION_DOMAINS_RE = re.compile(
     r"(?:\.ampproject\.org(?::\d*)?/[cv]/(?:s/)?|bc\.marfeelcache\.com(?::\d*)?/amp/|bc\.marfeel\.com(?::\d*)?/)",
     re.I,
 )
-YOUTUBE_REDIRECTION_RE = re.compile(r"youtube\.com(?::\d*)?/redirect\?", re.I)
+YOUTUBE_REDIRECTION_RE = re.compile(r"youtube\.com(?::\d*)?/redirect/?\?", re.I)
+GOOGLE_REDIRECTION_RE = re.compile(r"/url/?\?")
 
 
 def infer_redirection(url, recursive=True):
@@ -73,7 +74,7 @@ def infer_redirection_step(url):
             # NOTE: the pattern is case-insensitive, so must be this test
             if obvious_redirect_match.group(1).lower() == "q":
                 # NOTE: q is not necessarily the first item of the query
-                if "/url?" not in url and "/redirect" not in url:
+                if not GOOGLE_REDIRECTION_RE.search(url) and "/redirect" not in url:
                     return None
 
             potential_target = unquote(obvious_redirect_match.group(2))
